@@ -28,7 +28,9 @@ LOGIX_STUB = ["socket module (SimNet)", "os.urandom (seeded)", "time.time (virtu
               "EtherNet/IP device, chassis, connection manager, Logix controller (reference models, no pycomm3 import)"]
 LOGIX_RULE = ("scenario = generated controller project (types, tags, memory image) + firmware/Micro800/Forward-Open policy + "
               "peer choices (recv chunking, partial sends, fragment and page capacities, handle values) + call history "
-              "(open/read/write/get_tag_list/close with generated request lists); non-trivial = the property's oracle was "
+              "(open/read/write/get_tag_list/close with generated request lists) + in 12 % of the runs a second LogixDriver instance "
+              "in the same process, interleaved call by call, talking to another controller with the same tag/type names but other "
+              "instance ids, handles, member names and values; non-trivial = the property's oracle was "
               "evaluated on at least one call; distinct = distinct abstract trace shapes (op kinds and outcomes, services "
               "executed at the target, number of multi-service packets, request-count class, planted-invalid kinds)")
 
@@ -43,7 +45,8 @@ def _logix(prop, level, qn, tn, directed=False, budget=(180, 1800), extra_rule="
             "want_probes": ["frag_read_ge3", "frag_write_ge3", "multi_service_ge2_packets", "symbol_list_partial",
                             "symbol_list_ge3_pages", "template_fragment_partial", "template_cut_inside_member_record",
                             "first_chunk_lt4", "send_partial", "standard_fo_fallback_taken", "micro800_open",
-                            "sequence_wrap_inside_call", "status6_on_fragmented_read", "read_fragment_empty"],
+                            "sequence_wrap_inside_call", "status6_on_fragmented_read", "read_fragment_empty",
+                            "second_driver_read_interleaved"],
             "assumptions": ["benign nondeterminism only (no transport faults): the quantifier of this property has no faults",
                             "reference controller follows 1756-PM020 / CIP Vol 1; strict rules named in DESIGN 3.4"] + list(assumptions)}
 
